@@ -18,8 +18,15 @@ The link is ended at the k-th exchange by one of the causes
                parameter (connect by name) can carry; both ends announce a MIU that lets the PDU pass collect()
     unencodable-type  same with sendto(b"hello", "33"): a destination address of the wrong type, which the socket
                layer does not check either; pdu.encode() fails with TypeError in the link loop
+    unencodable-raw   same through a RAW access point socket (nfc.llcp.llc.RAW_ACCESS_POINT, bound): an application
+               thread of this end sends, blocking or with MSG_DONTWAIT, a PDU object that cannot be encoded -
+               UnnumberedInformation('33', 1, data=b'x') (TypeError in the link loop) or FrameReject(16, 32, flags=99)
+               (struct.error in the link loop); a raw access point takes any PDU object, nothing is checked before the
+               link loop encodes it
     (should the socket layer reject such a call - nfc.llcp.Error, TypeError or ValueError to the caller that made
-    it - or the link survive it, the case falls back to cause "local": counter unencodable_fallback_local)
+    it - or the link survive it, the case falls back to cause "local": counters unencodable_fallback_local and
+    unencodable_degraded_to_local/<cause>/<what the caller got>; on the present tree this is what happens to
+    unencodable-ui and unencodable-type: sendto() refuses the address with EFAULT)
 
 Oracle (structural, never elapsed time):
   1. after the run loops have ended, once all workload threads show zero progress (sys.monitoring LINE counter of
@@ -32,16 +39,38 @@ Oracle (structural, never elapsed time):
   5. run() came back (return, SystemExit as pinned by the repository's tests for the IOError path, or IOError which
      ContactlessFrontend.connect() turns into `return False`); udp mode: connect() itself returned a value.  Any
      other exception that leaves the link loop (it then ended without terminate())  -> run-loop-died/<exc_sig>/<cause>
+     One allowance, cause unencodable-raw only: the link loop may pass the encoder's TypeError / ValueError /
+     struct.error for the application's own unencodable PDU object on to the caller of run() / connect() (argument
+     error) provided it has terminated the link before: link state SHUTDOWN, LLC marked terminated, every service
+     access point shut down and removed (counter unencodable_raw_raised_after_terminate)
+  7. a service thread that, once the link of its end has begun to terminate, dies of an exception that is not
+     nfc.llcp.Error (threading.excepthook; SystemExit is how a thread may end itself and is not counted): a socket call
+     or its result at the end of the link was not handled          -> escape/service-thread/<exc_sig>
+  6. spinning (decided on logical counts, never on elapsed time): after both link loops have ended a workload thread
+     whose call in progress (service thread: the thread itself) has executed more than SPIN_LINES statements of
+     nfc/llcp since the later of (link ended, call entered) and still goes on over SPIN_SAMPLES samples, or that is
+     seen in SPIN_WAITS different timed waits called from nfc code inside that one call (statements executed in
+     between), cycles inside nfc without returning: it honours neither the error of the calls it makes nor the end of
+     the link        -> call-never-returns/spinning/<kind>/<age>-socket/<cause>/<busy|timed-wait@fn>
+                        service-thread-survives/spinning/<service function>/<cause>/<busy|timed-wait@fn>
+     (on the unchanged tree a call executes at most a few hundred such statements after the link has ended:
+     counters max_post_term_lines/call and max_post_term_lines/service-thread; a thread that is merely slow never reaches the counts)
 A sample budget that runs out without quiescence is INCONCLUSIVE.
 
 <age> of the socket a blocked call works on:
     old            registered with the LLC (bound) before terminate() began; the thread was already waiting then
+    old-shared     same, and other threads wait in calls on the same socket (shared-socket groups)
     old-latewait   same socket class, but the thread entered the wait after terminate() had begun (it had passed the
                    entry checks before): lost wake-up
     entering       entering cases: the call was parked at one of its lock acquisitions before terminate() began and
                    resumed after the link loop had come back
     racing         created before the link loop came back, bound while/after terminate() ran
     new            created after run() came back
+Shared-socket groups ("shared" in the descriptor, one group per end and case, variant enumerated): 2 or 3 threads
+wait in calls on the SAME socket when the link ends - recv+recv, recv+poll recv, recv+recv+poll recv, poll recv+poll
+recv, send+send on a closed window, send+poll acks, poll acks+poll acks, accept+accept, recvfrom+recvfrom, raw
+recv+raw recv.  Every one of them has to come back (a termination that wakes one waiter per condition instead of all
+leaves the others behind); <age> is then "old-shared".
 Frame-reject cases ("fr" in the descriptor): the same pair, causes and MAC modes, but the link is ended only after
 every end has had frame-reject events on data link connections that have a thread blocked in a socket call.  The
 hostile peer is a thread of the other end with a RAW access point socket (public API) that sends, once it sees the
@@ -53,12 +82,20 @@ victim thread inside its wait,
                      the connection (same, flag W; an SNL/PAX/AGF/DPS PDU with such addresses does not get that far:
                      it fails to decode, which ends the link)
     dm-on-dlc / cc-on-dlc    DM / CC for an established connection (nfcpy ignores them)
+    disc-received    DISC for the connection (the peer closes it: CLOSE_WAIT, DM is sent)
 to victims blocked in recv / poll recv / poll acks / send on a closed window / poll send on an established
 connection, in accept() on a listening socket and in connect() in progress (there: ui, unknown, frmr, dm).  k exchanges
 (0..30) after the events have taken effect the link ends by the cause of the case.  The oracle is unchanged: a
 victim may return at the reject (what nfcpy does) or when the link ends, it must not stay blocked; the cause in
 the signature becomes <event>+<cause>.  After its first call returned a victim issues the same call once more on
 the (now shut down) socket, which has to come back too.
+Same-exchange victims (events disc-sx / dm-sx / frmr-sx): the call is ISSUED in the very exchange in which the peer's
+DISC / DM / FRMR for its connection arrives.  The hostile PDU is sent first; a sys.monitoring LINE hook holds the
+link loop of the victim's end at the first statement of LogicalLinkController.dispatch() for that PDU (it holds no
+lock there), the victim thread makes its call - send() on an open window whose I PDU is then queued but not yet
+collected ("sendq"), send() on a closed window, recv, poll recv / acks, send with MSG_DONTWAIT followed by poll
+send - and once it is seen inside its wait (bounded, selects what is exercised) the link loop goes on and dispatches
+the PDU: the schedule "both sides act at the same time".  Oracle and signatures as above.
 
 Entering cases ("ent" in the descriptor): calls that are ENTERING - between their first test of the socket / link
 state and their wait - at the moment the link terminates.  Every blocking call kind (recv, send on a closed window,
@@ -89,6 +126,7 @@ path (sys.monitoring LINE hook) until the link has ended: systematic single pree
 import errno
 import itertools
 import random
+import struct
 import sys
 import threading
 import time
@@ -110,21 +148,28 @@ ID = "C09"
 LEVEL = "exploration"
 RULE = ("case = (cause of termination x end that experiences it x deactivate variant: 13 combinations, among them an "
         "error in the link loop caused by an unencodable outgoing PDU - sendto() to address 64 or to address '33' "
-        "(a string), blocking and MSG_DONTWAIT, or resolve()/connect() of a 256 octet service name, issued by an application thread at "
+        "(a string), blocking and MSG_DONTWAIT, resolve()/connect() of a 256 octet service name, or (unencodable-raw, "
+        "both ends) a PDU object that pdu.encode() rejects with TypeError / struct.error sent through a bound RAW "
+        "access point socket, blocking and MSG_DONTWAIT, issued by an application thread at "
         "exchange k) x exchange number "
         "k in 2..40 at which the link ends, both enumerated; x assignment of 20 application roles (blocked recv / accept / "
         "connect by SAP and by name / resolve / send on a closed window / sendto / recvfrom / poll recv,send,acks with "
         "and without time-out / close, SNEP and handover clients in mid-request) to the two ends, SNEP and handover "
-        "servers, randomised; 2 of 5 cases add one directed preemption (a chosen thread - role, infrastructure or "
+        "servers, randomised; on each end one group of 2 or 3 threads that wait in calls on the SAME socket (10 "
+        "variants: recv+recv, recv+poll recv, recv+recv+poll recv, poll recv x2, send+send on a closed window, "
+        "send+poll acks, poll acks x2, accept x2, recvfrom x2, raw recv x2; enumerated); 2 of 5 cases add one directed preemption (a chosen thread - role, infrastructure or "
         "service thread - is parked at the n-th statement of its call path inside nfc/llcp until the link has ended; "
         "thread and n enumerated); 1 of 10 cases runs the real nfc.dep exchange()/deactivate() over a frame level air "
         "instead of the PDU level FakeMac and 1 of 10 the complete path (two real ContactlessFrontend.connect(llcp=..) "
         "calls, real nfc.clf.udp driver and nfc.dep over the in-memory FakeNet with the fault injected at socket level); "
         "the other schedules are randomised by yield injection. Frame-reject cases (2 per shard quick, 12 thorough) "
-        "add: 8 causes x delay k in (0,2,5,12,30) exchanges, enumerated, x 10 victims per end out of 43 enumerated "
+        "add: 8 causes x delay k in (0,2,5,12,30) exchanges, enumerated, x 12 victims per end out of 66 enumerated "
         "(blocked call x frame-reject event) combinations - recv / poll recv / poll acks / send on a closed window / "
         "poll send on an established connection, accept, connect in progress x FRMR received, I PDU with wrong N(S), "
-        "oversized I PDU, UI, PDU of reserved type 1011, DM, CC sent by a raw access point of the peer when the victim is seen waiting - "
+        "oversized I PDU, UI, PDU of reserved type 1011, DM, CC, DISC sent by a raw access point of the peer when the victim is seen waiting, "
+        "plus 18 same-exchange combinations (send with the I PDU queued but not collected, send on a closed window, recv, "
+        "poll recv/acks/send x DISC, DM, FRMR from the peer dispatched in the very exchange in which the call is issued: "
+        "the link loop is held in front of dispatch(PDU) until the victim is inside its wait) - "
         "and end the link k exchanges after the events took effect. Entering cases (2 per shard quick, 10 thorough) "
         "add: 13 causes x delay k in (0,1,3,8), enumerated, x on EACH end one entrant thread per (blocking call kind x "
         "outermost lock acquisition point p of that call: 20 points on the unchanged code - recv, send on a closed "
@@ -155,7 +200,9 @@ ASSUMPTIONS = [
     "run() raising SystemExit on the IOError path is accepted because the repository's tests pin it",
     "unencodable-* causes: the application thread makes its call when the MAC hook reports exchange k; "
     "nfc.llcp.pdu.encode is wrapped by a pass-through that records failed calls (evidence only); TypeError/ValueError "
-    "raised to the thread that made the bad call are accepted for that one call (argument errors); if the stack "
+    "(and struct.error) raised to the thread that made the bad call are accepted for that one call (argument "
+    "errors), and likewise for the calls with the same deliberately invalid arguments (address 64, address '33', 256 "
+    "octet name, unencodable PDU object on a raw access point) that are issued after the termination; if the stack "
     "refuses the call or the link is still up 2 s later the case goes on with a local terminate request and is "
     "labelled 'local' (this wait selects the cause that is exercised, it decides no verdict)",
     "frame-reject cases: the hostile PDUs are sent through a RAW access point socket of the peer's real stack; "
@@ -173,11 +220,16 @@ ASSUMPTIONS = [
     "select what is exercised and decide no verdict; a call that was not parked before terminate() began is not "
     "counted as an entering call",
     "a thread is 'blocked forever' when, after both link loops have ended and all watched threads are quiescent, it "
-    "sits in an untimed Condition.wait called from nfc code whose waiter lock nobody has released; no other "
-    "workload thread shares its socket (except the thread that later issues close(), after the verdict)",
+    "sits in an untimed Condition.wait called from nfc code whose waiter lock nobody has released; threads that "
+    "share a socket (shared-socket groups) are all watched, each makes one call and ends, so none of them can wake "
+    "another after the verdict; otherwise no other workload thread shares its socket (except the thread that later "
+    "issues close(), after the verdict)",
 ]
 REQUIRED = ["terminations", "terminations/local", "terminations/remote", "terminations/disrupt",
             "terminations/ioerror-deact-noop", "terminations/ioerror-deact-raises",
+            # a PDU object that cannot be encoded reached the link loop through a raw access point and ended the link
+            "terminations/unencodable-raw", "unencodable_cases/raw", "unencodable_how/raw-ui", "unencodable_how/raw-frmr",
+            "unencodable_how/raw-ui-nb", "unencodable_how/raw-frmr-nb",
             # the unencodable call was made on a live link at exchange k (it then either ended the link through the
             # link loop - terminations/unencodable-* - or was refused / survived: unencodable_fallback_local)
             "unencodable_cases/ui", "unencodable_cases/name", "unencodable_cases/type", "unencodable_cases_mac/fake",
@@ -188,7 +240,9 @@ REQUIRED = ["terminations", "terminations/local", "terminations/remote", "termin
             # frame-reject class: event delivered to a victim that was seen blocked in its call, and (fr_rejects) the
             # victim came back or its socket was shut down before the termination of the link began
             "fr_cases", "fr_events/frmr-received", "fr_events/frmr-sent-ns", "fr_events/frmr-sent-miu",
-            "fr_events/ui-on-dlc", "fr_events/unknown-on-dlc", "fr_events/dm-on-dlc",
+            "fr_events/ui-on-dlc", "fr_events/unknown-on-dlc", "fr_events/dm-on-dlc", "fr_events/disc-received",
+            # same-exchange victims: the call was seen waiting while the link loop was held in front of dispatch(PDU)
+            "fr_events/disc-sx", "fr_events/dm-sx", "fr_events/frmr-sx", "fr_victims/sendq", "fr_sx_held_dispatch",
             "fr_rejects/frmr-received", "fr_rejects/frmr-sent-ns", "fr_rejects/frmr-sent-miu", "fr_rejects/ui-on-dlc",
             "fr_victims/recv", "fr_victims/poll-recv", "fr_victims/poll-acks", "fr_victims/send", "fr_victims/accept",
             "fr_victims/connect", "fr_terminations/local", "fr_terminations/remote", "fr_terminations/disrupt",
@@ -205,16 +259,22 @@ LATE_NAME = b"urn:nfc:sn:vf-late"
 BAD_SAP = 64                                   # not a 6 bit address: the UI PDU cannot be encoded
 LONG_NAME = b"urn:nfc:sn:vf-long." + b"n" * 237  # 256 octets: neither SDREQ nor SN can carry it
 BAD_TYPE_SAP = "33"                            # not an integer: encode_header() fails with TypeError
-UNENC = ("unencodable-ui", "unencodable-name", "unencodable-type")
+UNENC = ("unencodable-ui", "unencodable-name", "unencodable-type", "unencodable-raw")
 UNENC_HOW = {"unencodable-ui": ("sendto-nb", "sendto"), "unencodable-name": ("resolve", "connect"),
-             "unencodable-type": ("sendto-nb", "sendto")}
+             "unencodable-type": ("sendto-nb", "sendto"),
+             "unencodable-raw": ("raw-ui-nb", "raw-frmr", "raw-ui", "raw-frmr-nb")}
+ARG_ERRORS = (TypeError, ValueError, struct.error)      # what a call with a deliberately bad argument may raise
+SPIN_LINES = 8000          # statements of nfc/llcp one call / service thread may execute after the link has ended
+SPIN_SAMPLES = 3           # ... and still be at it over that many samples
+SPIN_WAITS = 8             # different timed waits inside one call after the link has ended
 DEFAULT_MIU = {"A": 200, "B": 300}
 UNENC_MIU = {"A": 320, "B": 300}               # the PDU with the long name must pass collect() (send MIU >= 259)
 
 _real_time = time
 _orig_thread_start = threading.Thread.start
 _started = []              # (thread, creator) for every Thread.start() in this process (service thread accounting)
-_uncaught = []             # (thread, exc_sig) from threading.excepthook
+_uncaught = []             # (thread, exc_sig, tick of the running case) from threading.excepthook
+_cur = {"ctx": None}       # the case that is running (one at a time per shard process)
 _encode_errors = []        # exception type names of failed nfc.llcp.pdu.encode() calls (observation only)
 _orig_pdu_encode = P.encode
 
@@ -242,7 +302,12 @@ def _install_process_hooks():
 
     def hook(args):
         try:
-            _uncaught.append((args.thread, exc_sig(args.exc_value) if args.exc_value else str(args.exc_type)))
+            if args.exc_type is SystemExit:      # as the default hook: a thread may end itself this way
+                return
+            ctx = _cur["ctx"]
+            _uncaught.append((args.thread, exc_sig(args.exc_value) if args.exc_value else str(args.exc_type),
+                              next(ctx.ticks) if ctx is not None else 0,
+                              exc_text(args.exc_value)[-600:] if args.exc_value else ""))
         except Exception:
             pass
     threading.excepthook = hook
@@ -261,10 +326,14 @@ def _install_process_hooks():
 # plan
 CAUSES = [("local", "A", "noop"), ("local", "B", "noop"), ("disrupt", "A", "noop"),
           ("ioerror", "A", "noop"), ("ioerror", "A", "raises"), ("ioerror", "B", "noop"), ("ioerror", "B", "raises"),
-          ("unencodable-ui", "A", "noop"), ("unencodable-ui", "B", "noop"),
+          # unencodable-ui / -type: one end each (the socket layer refuses these calls on the present tree, the
+          # cases then run as "local"); unencodable-raw reaches the encoder in the link loop on every tree
+          ("unencodable-ui", "A", "noop"), ("unencodable-raw", "B", "noop"),
           ("unencodable-name", "A", "noop"), ("unencodable-name", "B", "noop"),
-          ("unencodable-type", "A", "noop"), ("unencodable-type", "B", "noop")]
+          ("unencodable-raw", "A", "noop"), ("unencodable-type", "B", "noop")]
 K_MIN, K_MAX = 2, 40
+SHARED = ["recv+recv", "recv+poll-recv", "recv+recv+poll-recv", "poll-recv+poll-recv", "send+send", "send+poll-acks",
+          "poll-acks+poll-acks", "accept+accept", "recvfrom+recvfrom", "raw-recv+raw-recv"]
 
 
 def plan(tier, seed):
@@ -279,6 +348,13 @@ def plan(tier, seed):
             d["timeout"] = 1500
         out.append(d)
     return out
+
+
+def unenc_how(cause, t):
+    """which call hands the link loop the unencodable PDU; t = index of the case among those of its cause.  The MAC
+    mode of a cause has period 10 in t: the choice alternates within each MAC mode"""
+    hows = UNENC_HOW[cause]
+    return hows[(t // 10) % 2] if len(hows) == 2 else hows[(t // 10 + t) % len(hows)]
 
 
 def make_desc(i, seed, rng):
@@ -300,8 +376,10 @@ def make_desc(i, seed, rng):
          "yield_p": rng.choice([0.0, 0.01, 0.02, 0.05]), "yield_seed": rng.randrange(1 << 30),
          "order_seed": rng.randrange(1 << 30), "lto": 100, "agf": rng.random() < 0.7,
          "stagger": rng.choice([0, 0, 1, 3]), "servers": rng.choice(["AB", "AB", "A", "B"])}
+    # one group of threads that wait on the same socket per end (variant enumerated, period 30 in i)
+    d["shared"] = [[SHARED[(j // 3) % len(SHARED)], "A"], [SHARED[(j // 3 + j + 5) % len(SHARED)], "B"]]
     if cause in UNENC:
-        d["how"] = UNENC_HOW[cause][(j // (len(CAUSES) * 10)) % 2]     # alternates within each MAC mode (period 10)
+        d["how"] = unenc_how(cause, j // len(CAUSES))
         if cause == "unencodable-name":
             d["miu"] = dict(UNENC_MIU)
     if i % 5 == 4:
@@ -336,13 +414,18 @@ def make_desc(i, seed, rng):
 
 
 # frame-reject cases ----------------------------------------------------------------------------------------
-FR_CAUSES = CAUSES[:7] + [("unencodable-ui", "A", "noop")]
+FR_CAUSES = CAUSES[:7] + [("unencodable-raw", "AB", "noop")]      # the end alternates
 FR_DELAYS = (0, 2, 5, 12, 30)                  # exchanges between "events took effect" and the end of the link
-FR_EVENTS = ("frmr-received", "frmr-sent-ns", "frmr-sent-miu", "ui-on-dlc", "unknown-on-dlc", "dm-on-dlc", "cc-on-dlc")
+FR_EVENTS = ("frmr-received", "frmr-sent-ns", "frmr-sent-miu", "ui-on-dlc", "unknown-on-dlc", "dm-on-dlc", "cc-on-dlc",
+             "disc-received")
 FR_ESTABLISHED = ("recv", "poll-recv", "poll-acks", "send", "poll-send")
+FR_SX_EVENTS = ("disc-sx", "dm-sx", "frmr-sx")                 # the call is issued in the exchange the PDU arrives in
+FR_SX_KINDS = ("sendq", "send", "recv", "poll-recv", "poll-acks", "poll-send")
+FR_CALL_KIND = {"sendq": "send"}                               # kind of the call a victim makes
 FR_COMBOS = [[k, e] for e in FR_EVENTS for k in FR_ESTABLISHED] + \
-            [[k, e] for e in ("ui-on-dlc", "unknown-on-dlc", "frmr-received", "dm-on-dlc") for k in ("accept", "connect")]
-FR_PER_END = 10
+            [[k, e] for e in ("ui-on-dlc", "unknown-on-dlc", "frmr-received", "dm-on-dlc") for k in ("accept", "connect")] + \
+            [[k, e] for e in FR_SX_EVENTS for k in FR_SX_KINDS]
+FR_PER_END = 12
 
 
 def make_fr_desc(f, seed, rng):
@@ -350,6 +433,7 @@ def make_fr_desc(f, seed, rng):
     j = f + seed * 7919
     cause, end, deact = FR_CAUSES[j % len(FR_CAUSES)]
     k = FR_DELAYS[(j // len(FR_CAUSES)) % len(FR_DELAYS)]
+    end = end[(j // len(FR_CAUSES)) % len(end)]
     roles = []
     for name in ROLE_NAMES:
         r = rng.random()
@@ -366,7 +450,7 @@ def make_fr_desc(f, seed, rng):
          "order_seed": rng.randrange(1 << 30), "lto": 100, "agf": rng.random() < 0.7,
          "stagger": rng.choice([0, 0, 1, 3]), "servers": rng.choice(["AB", "AB", "A", "B"])}
     if cause in UNENC:
-        d["how"] = UNENC_HOW[cause][(j // len(FR_CAUSES)) % 2]
+        d["how"] = UNENC_HOW[cause][(j // (2 * len(FR_CAUSES))) % len(UNENC_HOW[cause])]
     m = (f + f // 8) % 8                 # 1 of 8 over the real nfc.dep, 1 of 8 the complete udp path; every cause
     if m in (3, 7):
         d["mac"] = "dep" if m == 3 else "udp"
@@ -394,6 +478,19 @@ ENT_STMT_N = {"accept": 10, "accept-pending": 18, "close": 9, "connect": 13, "co
               "poll-acks": 6, "poll-recv": 6, "poll-send": 6, "raw-recv": 8, "recv": 11, "recvfrom": 8, "resolve": 7,
               "send": 10, "sendto": 19}
 ENT_STMT_POINTS = [(v, n) for v in ENT_VARIANTS for n in range(1, ENT_STMT_N[v] + 3)]
+# per kind: calls that were inside nfc when terminate() began, and calls issued after run() had come back on sockets that
+# existed before ("old") and on sockets created afterwards ("new"); the kinds the plan produces in every run
+REQUIRED += ["blocked_at_term/" + k for k in (
+    "accept", "close", "connect", "poll-acks", "poll-acks-t", "poll-recv", "poll-recv-t", "poll-send", "poll-send-t",
+    "raw-recv", "recv", "recvfrom", "resolve", "send", "sendto")]
+REQUIRED += ["after/%s/old" % k for k in (
+    "accept", "bind", "close", "connect", "getpeername", "getsockname", "getsockopt", "listen", "poll-acks",
+    "poll-recv", "poll-recv-t", "poll-send", "raw-recv", "raw-send", "recv", "recvfrom", "send", "sendto", "sendto-nb")]
+REQUIRED += ["after/%s/new" % k for k in (
+    "accept", "bind", "close", "connect", "getsockname", "listen", "poll-acks", "poll-acks-t", "poll-recv",
+    "poll-recv-t", "poll-send", "raw-recv", "raw-send", "recv", "recvfrom", "resolve", "send", "sendto", "sendto-nb")]
+REQUIRED += ["shared_blocked_at_term/" + v for v in SHARED] + ["spin_checks",
+                                                                 "service_threads_watched_for_uncaught_exceptions"]
 REQUIRED += ["entering_cases", "entering_race_calls_during_termination", "entering_stmt_parked"] + \
             ["entering_parked/%s/%d" % vp for vp in ENT_POINTS] + \
             sorted({"entering_calls/" + ENT_KIND.get(v, v) for v in ENT_VARIANTS}) + \
@@ -427,7 +524,7 @@ def make_ent_desc(f, seed, rng):
          "order_seed": rng.randrange(1 << 30), "lto": 100, "agf": rng.random() < 0.7,
          "stagger": rng.choice([1, 1, 3]), "servers": rng.choice(["AB", "AB", "A", "B"])}
     if cause in UNENC:
-        d["how"] = UNENC_HOW[cause][(j // len(CAUSES)) % 2]
+        d["how"] = UNENC_HOW[cause][(j // len(CAUSES)) % len(UNENC_HOW[cause])]
         if cause == "unencodable-name":
             d["miu"] = dict(UNENC_MIU)
     m = (f + f // 8) % 8
@@ -456,6 +553,7 @@ class Ctx:
         self.pre_threads = set(threading.enumerate())
         del _started[:]                      # cases run one after the other in a shard process
         del _uncaught[:]
+        _cur["ctx"] = self
         self.started_mark = 0
         self.uncaught_mark = 0
         self.encode_error_mark = len(_encode_errors)
@@ -474,6 +572,13 @@ class Ctx:
         self.unenc_rec = None                # call record of that call
         self.unenc_rejected = None           # the socket layer refused the call (argument error to the caller)
         self.unenc_fallback = False          # the call did not end the link: local terminate request instead
+        self.unenc_refusal = None            # what the caller of the refused call got (evidence)
+        self.spin_base = None                # LINE counters per thread when both link loops had ended
+        self.spin_state = {}                 # thread -> what the spin monitor has seen of its call in progress
+        self.spinners = []                   # threads judged spinning (stopped after the verdict)
+        self.spin_max = {"call": 0, "service-thread": 0}
+        self.by_stack = {"A": False, "B": False}   # terminate() of that end reached the MAC before run() came back
+        self.run_exc = {}                    # exception object that left run() / connect()
         self.local_term = None               # callable(end): turn this end's terminate callback true
         self.fr = desc.get("fr")             # frame-reject case: {end: [[kind, event], ...]}
         self.fr_workers = []                 # the victim threads
@@ -483,6 +588,10 @@ class Ctx:
         self.xn = 0                          # exchanges seen by the MAC hook (initiator side)
         self.fr_deferred = []                # the ordinary roles of a frame-reject case (started after the events)
         self.fr_done = threading.Event()     # injectors finished, ordinary roles started
+        self.arg_errors = []                 # (kind, exception type) of calls with deliberately bad arguments
+        self.shared = []                     # shared-socket groups: {"variant", "end", "threads"}
+        self.fr_sx = {}                      # (end, local SAP) -> same-exchange victim whose PDU is on its way
+        self.fr_sx_held = 0                  # dispatch() calls held for such a victim
         self.ent = desc.get("ent")           # entering case: {end: [[variant, p | delay, mode], ...]}
         self.ent_workers = []                # entrants and racers
         self.ent_threads = {}                # thread ident -> state of the entrant whose call is in progress
@@ -554,7 +663,8 @@ class Ctx:
                 return "local" if end == d["end"] else "remote"
             if end == d["end"]:
                 return d["cause"]
-            died = str(self.run_out.get(d["end"], "")).startswith("escape:")      # then nobody sent a DISC
+            # the link loop died without terminate(): then nobody sent a DISC
+            died = str(self.run_out.get(d["end"], "")).startswith("escape:") and not self.by_stack[d["end"]]
             return "remote" if d["end"] == "B" and not died else "disrupt"
         if end == d["end"]:
             return "ioerror-deact-" + ("raises" if d.get("mac") in ("dep", "udp") else d["deact"])
@@ -572,6 +682,7 @@ class S:
         self.bound_before_end = accepted and not self.new and ctx.term[end] is None
         self.sock = sock if sock is not None else nfc.llcp.Socket(ctx.llc(end), stype)
         self.owner = None
+        self.shared = False                  # several threads wait in calls on it (shared-socket groups)
         ctx.socks.append(self)
 
     def mark_bound(self):
@@ -581,7 +692,9 @@ class S:
     def age(self):
         if self.new:
             return "new"
-        return "old" if self.bound_before_end else "racing"
+        if self.bound_before_end:
+            return "old-shared" if self.shared else "old"
+        return "racing"
 
 
 def brief(v):
@@ -608,6 +721,7 @@ class Worker(threading.Thread):
         self.escapes = []
         self.harness_error = None
         self.pos = 0
+        self.cur_line0 = 0
         ctx.workers.append(self)
 
     def run(self):
@@ -637,6 +751,8 @@ class Worker(threading.Thread):
             if self.hold_seen == hold.get("occ", 1):
                 ctx.hold_state["armed"] = True
                 ctx.hold_state["ident"] = threading.get_ident()
+        mon = ctx.env_mon
+        self.cur_line0 = mon.counts.get(threading.get_ident(), 0)
         self.cur = rec
         ok, val = False, None
         try:
@@ -646,6 +762,8 @@ class Worker(threading.Thread):
         except nfc.llcp.Error as e:
             out = "err:" + errno.errorcode.get(e.errno, str(e.errno))
         except BaseException as e:
+            if self in ctx.abandoned:        # judged already (spinning) and stopped by the harness: not an outcome
+                raise _Abandoned()
             out = "escape:" + exc_sig(e)
             self.escapes.append((kind, rec[1], exc_sig(e), exc_text(e)[-600:]))
         rec[3] = next(self.ctx.ticks)
@@ -655,6 +773,12 @@ class Worker(threading.Thread):
             hs["done"] = True                # only this one call of the thread is subject to the preemption
         self.cur = None
         self.log.append(rec)
+        base = ctx.spin_base
+        if base is not None:                 # evidence: statements this call executed after the link had ended
+            t = threading.get_ident()
+            n = mon.counts.get(t, 0) - max(self.cur_line0, base.get(t, 0))
+            if n > ctx.spin_max["call"]:
+                ctx.spin_max["call"] = n
         return ok, val
 
     def new_sock(self, stype, end=None):
@@ -912,12 +1036,51 @@ def r_raw_recv(w):
         w.do("raw-recv", s, s.sock.recv)
 
 
+def shared_body(variant):
+    """2 or 3 threads (this one and helpers it starts) wait in calls on the same socket"""
+    kinds = variant.split("+")
+
+    def body(w):
+        ctx = w.ctx
+        if kinds[0] in ("recv", "poll-recv", "send", "poll-acks"):
+            s = _connected(w, SINK)
+            if s is None:
+                return
+            if "send" in kinds:                  # RW(remote) is 1 and the peer never reads: further sends block
+                ok, v = w.do("send", s, s.sock.send, PAY)
+                if not (ok and v is True):
+                    return
+        elif kinds[0] == "accept":
+            s = w.new_sock(DLC)
+            if not (s and w.bind(s) and w.do("listen", s, s.sock.listen, 1)[0]):
+                return
+        else:
+            s = w.new_sock(LDL if kinds[0] == "recvfrom" else RAW)
+            if not (s and w.bind(s)):
+                return
+        k = s.sock
+        calls = {"recv": k.recv, "poll-recv": lambda: k.poll("recv"), "send": lambda: k.send(PAY),
+                 "poll-acks": lambda: k.poll("acks"), "accept": k.accept, "recvfrom": k.recvfrom, "raw-recv": k.recv}
+        s.shared = True
+        helpers = [Worker(ctx, w.end, "shared-%s#%d" % (variant, i + 1), lambda h, c=c: h.do(c, s, calls[c]), 1)
+                   for i, c in enumerate(kinds[1:])]
+        ctx.shared.append({"variant": variant, "end": w.end, "threads": [w] + helpers})
+        for h in helpers:
+            h.start()
+        w.do(kinds[0], s, calls[kinds[0]])
+    return body
+
+
 def r_unencodable(w):
     """the application thread that, at exchange k, hands the link loop a PDU that cannot be encoded"""
     ctx, d = w.ctx, w.ctx.desc
     how = d["how"]
     if how in ("sendto", "sendto-nb"):
         s = w.new_sock(LDL)
+        if not (s and w.bind(s)):
+            return
+    elif how.startswith("raw-"):
+        s = w.new_sock(RAW)
         if not (s and w.bind(s)):
             return
     elif how == "resolve":
@@ -935,11 +1098,13 @@ def r_unencodable(w):
             ctx.unenc_rec = w.cur
             try:
                 return fn(*a)
-            except (TypeError, ValueError) as e:      # argument error reported to the caller that made the bad call
+            except ARG_ERRORS as e:                   # argument error reported to the caller that made the bad call
                 ctx.unenc_rejected = exc_sig(e)
+                ctx.arg_errors.append((kind, type(e).__name__))
                 return "rejected"
         ok, val = w.do(kind, s, marked)
         if (not ok or ctx.unenc_rejected) and ctx.term[w.end] is None and ctx.ended[w.end] is None:
+            ctx.unenc_refusal = ctx.unenc_rejected or (w.log[-1][4] if w.log else "?")
             unenc_fallback(ctx)                       # refused on a live link: end the link by local choice
     dest = BAD_TYPE_SAP if d["cause"] == "unencodable-type" else BAD_SAP
     if how == "sendto":
@@ -948,8 +1113,17 @@ def r_unencodable(w):
         call("sendto-nb", s.sock.sendto, b"hello", dest, nfc.llcp.MSG_DONTWAIT)
     elif how == "resolve":
         call("resolve", s.sock.resolve, LONG_NAME)
+    elif how.startswith("raw-"):
+        call("raw-send", s.sock.send, unencodable_pdu(how), nfc.llcp.MSG_DONTWAIT if how.endswith("-nb") else 0)
     else:
         call("connect", s.sock.connect, LONG_NAME)
+
+
+def unencodable_pdu(how):
+    """PDU objects a raw access point accepts and pdu.encode() cannot encode"""
+    if how.startswith("raw-ui"):
+        return P.UnnumberedInformation(BAD_TYPE_SAP, 1, data=b"x")         # TypeError in encode_header()
+    return P.FrameReject(16, 32, flags=99)                                  # struct.error in encode()
 
 
 def unenc_fallback(ctx):
@@ -972,8 +1146,12 @@ def unenc_guard(ctx):
 
 # ---- frame-reject cases: victims (blocked call on a connection that suffers the event) and the hostile peer ------
 def fr_victim(kind, event):
+    sx = event in FR_SX_EVENTS
+    ckind = FR_CALL_KIND.get(kind, kind)
+
     def body(w):
         st = w.fr
+        ctx = w.ctx
         try:
             s = w.new_sock(DLC)
             if kind == "accept":
@@ -991,19 +1169,29 @@ def fr_victim(kind, event):
                     ok, v = w.do("send", s, s.sock.send, PAY)
                     if not (ok and v is True):
                         return
-                elif kind == "poll-send":        # waits until the link loop has taken the I PDU (short)
+                elif kind == "poll-send" and not sx:     # waits until the link loop has taken the I PDU (short)
                     if not w.do("send-nb", s, s.sock.send, PAY, nfc.llcp.MSG_DONTWAIT)[0]:
                         return
                 call = {"recv": s.sock.recv, "poll-recv": lambda: s.sock.poll("recv"),
                         "poll-acks": lambda: s.sock.poll("acks"), "send": lambda: s.sock.send(PAY),
-                        "poll-send": lambda: s.sock.poll("send")}[kind]
+                        "sendq": lambda: s.sock.send(PAY), "poll-send": lambda: s.sock.poll("send")}[kind]
             ok, addr = w.do("getsockname", s, s.sock.getsockname)
             if not ok or addr is None:
                 return
             st["sock"], st["addr"] = s, addr
             st["state"] = "armed"
-            w.do(kind, s, call)                  # the call that is blocked when the event arrives
-            w.do(kind, s, call)                  # once more on the same socket (rejected, or the link has ended)
+            if sx:
+                # the call is made when the link loop of this end is about to dispatch the peer's PDU (or, should
+                # that never happen, when the link has ended / after the guard: then the case is not counted)
+                for _ in range(400):
+                    if st["go"].wait(0.02) or ctx.term[w.end] is not None or ctx.ended[w.end] is not None:
+                        break
+                if kind == "poll-send":          # the I PDU is queued, not collected: poll('send') waits for it
+                    if not w.do("send-nb", s, s.sock.send, PAY, nfc.llcp.MSG_DONTWAIT)[0]:
+                        return
+                st["issued"] = True
+            w.do(ckind, s, call)                 # the call that is blocked when the event arrives
+            w.do(ckind, s, call)                 # once more on the same socket (rejected, or the link has ended)
         finally:
             if st["state"] == "init":
                 st["state"] = "skip"
@@ -1012,7 +1200,7 @@ def fr_victim(kind, event):
 
 def fr_pdu(kind, event, addr):
     ssap = FRNOACC if kind == "connect" else (3 if kind == "accept" else FRSINK)
-    if event == "frmr-received":
+    if event in ("frmr-received", "frmr-sx"):
         return P.FrameReject(addr, ssap, flags=1, ptype=0b1100)
     if event == "frmr-sent-ns":
         return P.Information(addr, ssap, ns=5, nr=0, data=b"vf-out-of-sequence")
@@ -1022,8 +1210,10 @@ def fr_pdu(kind, event, addr):
         return P.UnnumberedInformation(addr, ssap, data=b"vf-ui-on-connection")
     if event == "unknown-on-dlc":
         return P.UnknownProtocolDataUnit(0b1011, addr, ssap, b"vf-reserved-pdu-type")
-    if event == "dm-on-dlc":
+    if event in ("dm-on-dlc", "dm-sx"):
         return P.DisconnectedMode(addr, ssap, reason=0)
+    if event in ("disc-received", "disc-sx"):
+        return P.Disconnect(addr, ssap)
     return P.ConnectionComplete(addr, ssap, miu=128, rw=1)
 
 
@@ -1044,6 +1234,9 @@ def fr_injector(w):
         def inject(v, blocked):
             st = v.fr
             st["blocked"], st["rec"] = blocked, v.cur
+            if st["sx"]:                         # the link loop of the victim's end will be held in front of this PDU
+                st["rec"] = None
+                ctx.fr_sx[(v.end, st["addr"])] = v
             ok, val = w.do("raw-send", s, s.sock.send, fr_pdu(st["kind"], st["event"], st["addr"]),
                            nfc.llcp.MSG_DONTWAIT)
             if ok:
@@ -1061,6 +1254,10 @@ def fr_injector(w):
                     continue
                 cur = v.cur
                 if st["state"] != "armed":
+                    continue
+                if st["sx"]:
+                    pend.remove(v)
+                    inject(v, False)
                     continue
                 in_call = cur is not None and cur[0] == st["kind"]
                 info = watch.classify(frames[v.ident]) if v.ident in frames else None
@@ -1081,6 +1278,10 @@ def fr_injector(w):
             for v in list(done):
                 st = v.fr
                 rec = st["rec"]
+                if st["sx"]:                     # effect and timing are recorded by the dispatch hook
+                    if st.get("sx_done") or not v.is_alive():
+                        done.remove(v)
+                    continue
                 if st["blocked"] and rec is not None and rec[3] is not None:
                     st["effect"] = "returned"
                 elif st["sock"].sock._tco.state.SHUTDOWN:
@@ -1105,6 +1306,56 @@ def fr_injector(w):
                         _real_time.sleep(0.0005)
                 ctx.fr_ready_at = ctx.xn
                 ctx.fr_done.set()
+
+
+def make_fr_hook(ctx):
+    """same-exchange victims: hold the link loop of the victim's end at the first statement of dispatch(PDU) for the
+    hostile DISC / DM / FRMR until the victim has issued its call and is seen inside its wait (or has come back);
+    bounded (1.5 s), selects what is exercised, decides no verdict.  The link loop holds no lock there."""
+    sx, loops = ctx.fr_sx, ctx.ent_loops
+    first = {}
+
+    def hook(code, line, t):
+        if code.co_name != "dispatch" or not sx:
+            return
+        fl = first.get(code)
+        if fl is None:
+            fl = first[code] = min([ln for _, _, ln in code.co_lines() if ln and ln > code.co_firstlineno] or [0])
+        end = loops.get(t)
+        if line != fl or end is None or not code.co_filename.endswith("/nfc/llcp/llc.py"):
+            return
+        f = sys._getframe(2)
+        p = f.f_locals.get("rcvd_pdu") if f.f_code is code else None
+        del f
+        if p is None or getattr(p, "name", None) not in ("DISC", "DM", "FRMR"):
+            return
+        v = sx.get((end, getattr(p, "dsap", None)))
+        if v is None or p.ssap != FRSINK or v.fr.get("sx_done"):
+            return
+        st = v.fr
+        ckind = FR_CALL_KIND.get(st["kind"], st["kind"])
+        st["go"].set()
+        blocked, rec = False, None
+        for _ in range(3000):
+            cur = v.cur
+            if cur is not None and cur[0] == ckind and st.get("issued"):
+                fr = sys._current_frames().get(v.ident)
+                info = watch.classify(fr) if fr is not None else None
+                del fr
+                if info is not None and info.kind == "cond-wait" and info.in_nfc:
+                    blocked, rec = True, cur
+                    break
+            elif st.get("issued") and cur is None and not v.is_alive():
+                break
+            if not v.is_alive():
+                break
+            _real_time.sleep(0.0005)
+        st["blocked"], st["rec"] = blocked, rec
+        st["effect"] = "delivered"
+        st["effect_before_term"] = ctx.term[end] is None and ctx.ended[end] is None
+        st["sx_done"] = True
+        ctx.fr_sx_held += 1
+    return hook
 
 
 # ---- entering cases: stand-ins for locks / conditions, entrants, racers ------------------------------------------
@@ -1408,6 +1659,19 @@ HOLD_TARGETS = [
 
 # =========================================================================================================
 # calls issued after the termination
+def bad_arg(ctx, kind, fn, *a):
+    """thunk for a call with a deliberately invalid argument: TypeError / ValueError / struct.error raised to the caller
+    that made the bad call is an argument error, not an outcome of the end of the link (the same allowance as for the
+    call that hands the link loop an unencodable PDU); counted"""
+    def thunk():
+        try:
+            return fn(*a)
+        except ARG_ERRORS as e:
+            ctx.arg_errors.append((kind, type(e).__name__))
+            return "rejected"
+    return thunk
+
+
 def old_sequence(ctx, s):
     """[(kind, thunk)] for one socket that existed before the link ended; close comes last, then three more"""
     k = s.sock
@@ -1426,13 +1690,16 @@ def old_sequence(ctx, s):
                ("poll-send", lambda: k.poll("send")), ("poll-recv-t", lambda: k.poll("recv", 0.01)),
                ("recvfrom", k.recvfrom), ("sendto", lambda: k.sendto(PAY, LDLSINK)),
                ("sendto-nb", lambda: k.sendto(PAY, LDLSINK, nfc.llcp.MSG_DONTWAIT)),
-               ("sendto-nb", lambda: k.sendto(b"hello", BAD_SAP, nfc.llcp.MSG_DONTWAIT)),
+               ("sendto-nb", bad_arg(ctx, "sendto-nb", k.sendto, b"hello", BAD_SAP, nfc.llcp.MSG_DONTWAIT)),
+               ("sendto-nb", bad_arg(ctx, "sendto-nb", k.sendto, b"hello", BAD_TYPE_SAP, nfc.llcp.MSG_DONTWAIT)),
                ("connect", lambda: k.connect(LDLSINK)), ("bind", k.bind), ("resolve", lambda: k.resolve(NA_NAME)),
-               ("resolve", lambda: k.resolve(LONG_NAME))]
+               ("resolve", bad_arg(ctx, "resolve", k.resolve, LONG_NAME))]
         tail = [("close", k.close), ("recvfrom", k.recvfrom), ("sendto", lambda: k.sendto(PAY, LDLSINK))]
     else:
         seq = [("poll-recv", lambda: k.poll("recv")), ("raw-recv", k.recv),
-               ("raw-send", lambda: k.send(P.UnnumberedInformation(LDLSINK, 33, PAY))), ("bind", k.bind)]
+               ("raw-send", lambda: k.send(P.UnnumberedInformation(LDLSINK, 33, PAY))), ("bind", k.bind),
+               ("raw-send", bad_arg(ctx, "raw-send", k.send, unencodable_pdu("raw-ui"), nfc.llcp.MSG_DONTWAIT)),
+               ("raw-send", bad_arg(ctx, "raw-send", k.send, unencodable_pdu("raw-frmr")))]
         tail = [("close", k.close), ("raw-recv", k.recv)]
     ctx.order.shuffle(seq)
     return seq + tail
@@ -1459,16 +1726,24 @@ def new_scenarios(end):
 
     def n_bind_connect(w):
         s = w.new_sock(DLC)
-        s and w.bind(s) and w.connect(s, SINK)
+        if s:
+            w.bind(s)
+            w.connect(s, SINK)
 
+    # a refused bind() / listen() does not end a scenario: the blocking call is issued all the same (it has to come
+    # back whatever the state of the socket is)
     def n_accept(w):
         s = w.new_sock(DLC)
-        if s and w.bind(s) and w.do("listen", s, s.sock.listen, 1)[0]:
+        if s:
+            w.bind(s)
+            w.do("listen", s, s.sock.listen, 1)
             w.do("accept", s, s.sock.accept)
 
     def n_accept_name(w):
         s = w.new_sock(DLC)
-        if s and w.bind(s, LATE_NAME) and w.do("listen", s, s.sock.listen, 2)[0]:
+        if s:
+            w.bind(s, LATE_NAME)
+            w.do("listen", s, s.sock.listen, 2)
             w.do("accept", s, s.sock.accept)
 
     def n_dlc_misc(w):
@@ -1488,20 +1763,28 @@ def new_scenarios(end):
 
     def n_poll_acks(w):
         s = w.new_sock(DLC)
-        s and w.bind(s) and w.do("poll-acks", s, s.sock.poll, "acks")
+        if s:
+            w.bind(s)
+            w.do("poll-acks", s, s.sock.poll, "acks")
 
     def n_sendto(w):
         s = w.new_sock(LDL)
         s and w.do("sendto", s, s.sock.sendto, PAY, LDLSINK)
 
     def n_unencodable(w):
+        ctx = w.ctx
         s = w.new_sock(LDL)
         if s:
-            w.do("sendto-nb", s, s.sock.sendto, b"hello", BAD_SAP, nfc.llcp.MSG_DONTWAIT)
-            w.do("sendto", s, s.sock.sendto, b"hello", BAD_SAP)
-            w.do("resolve", s, s.sock.resolve, LONG_NAME)
+            w.do("sendto-nb", s, bad_arg(ctx, "sendto-nb", s.sock.sendto, b"hello", BAD_SAP, nfc.llcp.MSG_DONTWAIT))
+            w.do("sendto", s, bad_arg(ctx, "sendto", s.sock.sendto, b"hello", BAD_SAP))
+            w.do("sendto", s, bad_arg(ctx, "sendto", s.sock.sendto, b"hello", BAD_TYPE_SAP))
+            w.do("resolve", s, bad_arg(ctx, "resolve", s.sock.resolve, LONG_NAME))
         s = w.new_sock(DLC)
-        s and w.connect(s, LONG_NAME)
+        s and w.do("connect", s, bad_arg(ctx, "connect", s.sock.connect, LONG_NAME))
+        s = w.new_sock(RAW)
+        if s:
+            w.do("raw-send", s, bad_arg(ctx, "raw-send", s.sock.send, unencodable_pdu("raw-ui"), nfc.llcp.MSG_DONTWAIT))
+            w.do("raw-send", s, bad_arg(ctx, "raw-send", s.sock.send, unencodable_pdu("raw-frmr")))
 
     def n_sendto_nb_poll(w):
         s = w.new_sock(LDL)
@@ -1511,17 +1794,22 @@ def new_scenarios(end):
 
     def n_recvfrom(w):
         s = w.new_sock(LDL)
-        s and w.bind(s) and w.do("recvfrom", s, s.sock.recvfrom)
+        if s:
+            w.bind(s)
+            w.do("recvfrom", s, s.sock.recvfrom)
 
     def n_ldl_poll(w):
         s = w.new_sock(LDL)
-        if s and w.bind(s):
+        if s:
+            w.bind(s)
             w.do("poll-recv-t", s, s.sock.poll, "recv", 0.01)
             w.do("poll-recv", s, s.sock.poll, "recv")
 
     def n_raw_recv(w):
         s = w.new_sock(RAW)
-        s and w.bind(s) and w.do("raw-recv", s, s.sock.recv)
+        if s:
+            w.bind(s)
+            w.do("raw-recv", s, s.sock.recv)
 
     def n_resolve(w):
         s = w.new_sock(DLC)
@@ -1566,7 +1854,9 @@ class Pair(ThreadedPair):
         except BaseException as e:
             out = "escape:" + exc_sig(e)
             ctx.run_err[name] = exc_text(e)[-800:]
+            ctx.run_exc[name] = e
         self.run_exc[name] = out
+        ctx.by_stack[name] = ctx.term[name] is not None
         ctx.run_out[name] = out
         ctx.gone[name] = True
         ctx.stamp_term(name)                 # no-op when terminate() reached the MAC; else: who waits *now*
@@ -1922,6 +2212,15 @@ class CaseResult:
         self.seen.setdefault(name, set()).add(v)
 
 
+def link_shut_down(ctx, end):
+    """terminate() of this end ran to completion: what the anchors of the property name as the terminated state"""
+    llc = ctx.llc(end)
+    try:
+        return bool(llc.terminated) and bool(llc.link.SHUTDOWN) and all(sap is None for sap in llc.sap)
+    except Exception:
+        return False
+
+
 def service_kind(info):
     for fr in info.stack:
         if fr.startswith("nfc/snep/server.py:"):
@@ -1967,7 +2266,7 @@ def flag_blocked(ctx, res, th, info, phase):
     if ent is not None and ent.get("parked") and ent.get("parked_before_term") and cur[2] < ent["parked"] and \
             cur[0] == ent["kind"] and ent.get("rec_index") == len(th.log):
         age = "entering"                  # the call was held at a lock acquisition while the link terminated
-    elif age == "old":
+    elif age in ("old", "old-shared"):
         was = ctx.waiting[end].get(th)
         if not (was is True or (was is not None and was is getattr(th, "cur", None))):
             age = "old-latewait"          # it passed the entry checks before, reached the wait after the shutdown
@@ -1978,6 +2277,101 @@ def flag_blocked(ctx, res, th, info, phase):
     res.violations.append((sig, what, {"thread": who, "call": kind, "socket": age, "cause": cause, "phase": phase,
                                        "stack": info.stack[:9], "wait": [info.kind, info.timeout, info.notified]}))
     return True
+
+
+def service_function(frame):
+    """'service-snep-listen' ...: the outermost frame of a SNEP / handover server module on this stack"""
+    name = None
+    for f in watch.frames_of(frame):
+        fn = f.f_code.co_filename.replace("\\", "/")
+        if fn.endswith("/nfc/snep/server.py"):
+            name = "service-snep-" + f.f_code.co_name.lstrip("_")
+        elif fn.endswith("/nfc/handover/server.py"):
+            name = "service-handover-" + f.f_code.co_name.lstrip("_")
+    return name or "service-unknown"
+
+
+def spin_check(ctx, env, res, th, frames, phase):
+    """clause 6, evaluated once per sample for a live watched thread after both link loops have ended.  Logical
+    counts only: statements of nfc/llcp executed (LINE counter) and timed waits entered inside the one call in
+    progress (worker) / by the thread (service thread) since the link ended.  Returns True when the thread was
+    judged spinning (violation recorded)."""
+    base = ctx.spin_base
+    if base is None or th.ident is None or th in (ctx.pair.ta, ctx.pair.tb):
+        return False
+    n = env.mon.counts.get(th.ident, 0)
+    if isinstance(th, Worker):
+        cur = th.cur
+        if cur is None:
+            ctx.spin_state.pop(th, None)
+            return False
+        start = max(base.get(th.ident, 0), th.cur_line0)
+    else:
+        cur = th
+        start = base.get(th.ident, 0)
+    res.count("spin_checks")
+    st = ctx.spin_state.get(th)
+    if st is None or st["call"] is not cur:
+        st = ctx.spin_state[th] = {"call": cur, "last": None, "over": 0, "waits": 0, "wait_fn": None, "stacks": []}
+    if n == st["last"]:
+        return False                          # no statement executed since the previous sample: not for this clause
+    first = st["last"] is None
+    st["last"] = n
+    kind = "service-thread" if cur is th else "call"
+    if n - start > ctx.spin_max[kind]:
+        ctx.spin_max[kind] = n - start
+    f = frames.get(th.ident)
+    if f is None:
+        return False
+    info = watch.classify(f)
+    if not first and info.kind == "cond-wait" and info.in_nfc and info.timeout not in (None, "?"):
+        st["waits"] += 1                      # a timed wait it was not in at the previous sample
+        st["wait_fn"] = info.nfc_func
+        res.count("spin_timed_waits_seen")
+    if n - start > SPIN_LINES:
+        st["over"] += 1
+    if len(st["stacks"]) < 3:
+        st["stacks"].append(info.stack[:6])
+    if st["over"] >= SPIN_SAMPLES:
+        how = "busy"
+    elif st["waits"] >= SPIN_WAITS:
+        how = "timed-wait@%s" % st["wait_fn"]
+    else:
+        return False
+    d = ctx.desc
+    if cur is th:
+        end = "A" if any(th is s or _created_by(ctx, th, s) for s in ctx.servers if s._vf_end == "A") else "B"
+        what_in = service_function(f)
+        cause = ctx.cause_at(end)
+        sig = "service-thread-survives/spinning/%s/%s/%s" % (what_in, cause, how)
+        who = "service thread %s (end %s)" % (th.name, end)
+        extra = {"thread": th.name, "function": what_in}
+    else:
+        end, cause = th.end, ctx.cause_at(th.end)
+        if getattr(th, "fr_event", None):
+            cause = "%s+%s" % (th.fr_event, cause)
+        sig = "call-never-returns/spinning/%s/%s-socket/%s/%s" % (cur[0], cur[1], cause, how)
+        who = "%s (end %s) in %s on a %s socket" % (th.name, end, cur[0], cur[1])
+        extra = {"thread": th.name, "call": cur[0], "socket": cur[1]}
+    what = ("%s keeps cycling inside nfc after the link ended by %s at exchange k=%d (phase %s) and does not come "
+            "back: %d statements of nfc/llcp executed since then (bound %d), %d different timed waits (bound %d); "
+            "sampled stacks %s" % (who, cause, d["k"], phase, n - start, SPIN_LINES, st["waits"], SPIN_WAITS,
+                                   " | ".join(" < ".join(x) for x in st["stacks"])))
+    extra.update({"cause": cause, "phase": phase, "how": how, "statements": n - start, "timed_waits": st["waits"],
+                  "stacks": st["stacks"]})
+    res.violations.append((sig, what, extra))
+    res.count("spin_verdicts")
+    return True
+
+
+def _async_stop(th):
+    """after the verdict: make a spinning thread leave (SystemExit raised asynchronously in it); clean-up only"""
+    import ctypes
+    try:
+        if th.is_alive() and th.ident is not None:
+            ctypes.pythonapi.PyThreadState_SetAsyncExc(ctypes.c_ulong(th.ident), ctypes.py_object(SystemExit))
+    except Exception:
+        pass
 
 
 def _created_by(ctx, th, server):
@@ -2000,6 +2394,8 @@ def run_case(desc, env):
         env.mon.hook = make_hold_hook(ctx)
     elif ctx.ent is not None:
         env.mon.hook = make_ent_hook(ctx)
+    elif ctx.fr is not None:
+        env.mon.hook = make_fr_hook(ctx)
     opts = {"lto": desc["lto"], "agf": bool(desc["agf"])}
     infra = []
 
@@ -2050,7 +2446,8 @@ def start_roles(ctx, desc):
         for e in "AB":
             for kind, event in ctx.fr[e]:
                 w = Worker(ctx, e, "fr-%s-%s" % (kind, event), fr_victim(kind, event), 1)
-                w.fr = {"kind": kind, "event": event, "state": "init", "sock": None}
+                w.fr = {"kind": kind, "event": event, "state": "init", "sock": None, "sx": event in FR_SX_EVENTS,
+                        "go": threading.Event()}
                 ctx.fr_workers.append(w)
         for w in ctx.fr_workers:
             w.start()
@@ -2068,6 +2465,9 @@ def start_roles(ctx, desc):
             if stag and i % stag == 0:
                 _real_time.sleep(0.0005)
         threading.Thread(target=ent_monitor, args=(ctx,), name="vf-ent-monitor", daemon=True).start()
+    if ctx.fr is None and ctx.ent is None:
+        for variant, e in desc.get("shared", ()):
+            Worker(ctx, e, "shared-" + variant, shared_body(variant), 1).start()
     for i, (name, e) in enumerate(desc["roles"]):
         w = Worker(ctx, e, name, ROLES[name], 1)
         if ctx.fr is not None:
@@ -2108,12 +2508,18 @@ def finish_case(ctx, env, res):
             ctx.fire.set()
             return res, ctx
     res.times.append(("runs-ended", _real_time.time()))
+    ctx.spin_base = dict(env.mon.counts)         # clause 6 counts from here
     ctx.fire.set()                               # link ended before exchange k: the call is made afterwards
     mode = desc.get("mac", "fake")
     for e in "AB":
         out = ctx.run_out.get(e, "alive")
         res.count("run_outcome/%s/%s" % (ctx.cause_at(e), out))
-        if out.startswith("escape:"):
+        if out.startswith("escape:") and ctx.cause_at(e) == "unencodable-raw" and link_shut_down(ctx, e) and \
+                isinstance(ctx.run_exc.get(e), ARG_ERRORS):
+            # the encoder's complaint about the application's own PDU object, passed on after a complete terminate()
+            res.count("unencodable_raw_raised_after_terminate")
+            res.count("unencodable_raw_raised_after_terminate/%s/%s" % (mode, type(ctx.run_exc[e]).__name__))
+        elif out.startswith("escape:"):
             res.violations.append(("run-loop-died/%s/%s" % (out[7:], ctx.cause_at(e)),
                                    "%s of end %s did not come back but raised an exception that is neither documented "
                                    "nor handled (the link loop ended without terminate()) after %s: %s"
@@ -2126,6 +2532,9 @@ def finish_case(ctx, env, res):
             if ctx.unenc_fallback:
                 res.count("unencodable_fallback_local")
                 res.see("unencodable_rejected_by_socket_layer", str(ctx.unenc_rejected))
+                # explicit: this case did not exercise its cause, the link ended by a local terminate request
+                res.count("unencodable_degraded_to_local/%s/%s"
+                          % (desc["cause"], str(ctx.unenc_refusal or "link-survived-the-call").split("@")[0]))
         if ctx.cause_at(e) in UNENC:
             res.count("unencodable_calls_before_termination")
             res.count("unencodable_how/" + desc["how"])
@@ -2223,6 +2632,8 @@ def run_case_udp(desc, env):
     ctx.env_mon = env.mon
     if ctx.ent is not None:
         env.mon.hook = make_ent_hook(ctx)
+    elif ctx.fr is not None:
+        env.mon.hook = make_fr_hook(ctx)
     cause, end = desc["cause"], desc["end"]
     net = fakenet.FakeNet(clock="virtual", keep_frames=False, stall_limit=10.0)
     st = {"n": 0, "broken": False, "term": {"A": False, "B": False}, "connected": {"A": False, "B": False}}
@@ -2317,6 +2728,8 @@ def run_case_udp(desc, env):
             except BaseException as e2:
                 out = "escape:" + exc_sig(e2)
                 ctx.run_err[e] = exc_text(e2)[-800:]
+                ctx.run_exc[e] = e2
+            ctx.by_stack[e] = ctx.term[e] is not None
             ctx.run_out[e] = out
             ctx.gone[e] = True
             ctx.stamp_term(e)
@@ -2348,9 +2761,27 @@ def run_case_udp(desc, env):
 
 
 def settle(ctx, env, res, get_threads, phase, on_abandon=None, max_rounds=40):
-    """wait until the given threads are gone; blocked ones are flagged and abandoned (round after round)"""
+    """wait until the given threads are gone; blocked ones are flagged and abandoned (round after round); threads
+    that spin (clause 6) are flagged and abandoned at the sample at which their counts pass the bounds"""
+    def watched():
+        ths = [th for th in get_threads() if th not in ctx.abandoned]
+        if ctx.spin_base is None:
+            return ths
+        frames = sys._current_frames()
+        out = []
+        for th in ths:
+            if th.is_alive() and spin_check(ctx, env, res, th, frames, phase):
+                ctx.abandoned.add(th)
+                ctx.spinners.append(th)
+                _async_stop(th)               # the verdict is recorded; it would only burn processor time from here
+                if on_abandon and isinstance(th, Worker):
+                    on_abandon(th)
+            else:
+                out.append(th)
+        del frames
+        return out
     for _ in range(max_rounds):
-        status, infos = env.q.wait(get_threads)
+        status, infos = env.q.wait(watched)
         res.count("quiescence_waits")
         if status == "done":
             return True
@@ -2409,6 +2840,17 @@ def account(ctx, res):
                                    "%s: %s on a %s socket left with an exception that is not nfc.llcp.Error after %s: %s"
                                    % (w.name, kind, age, cause, text[-300:]),
                                    {"call": kind, "socket": age, "cause": cause}))
+    for g in ctx.shared:
+        term = ctx.term[g["end"]]
+        res.count("shared_groups/" + g["variant"])
+        n = 0
+        for th in g["threads"]:
+            rec = th.cur or (th.log[-1] if th.log else None)
+            if rec is not None and term is not None and rec[2] < term and (rec[3] is None or rec[3] > term):
+                n += 1
+        if n >= 2:                            # at least two threads were inside their calls on the one socket
+            res.count("shared_blocked_at_term/" + g["variant"])
+            res.count("shared_waiters_at_term", n)
     effective = {"A": 0, "B": 0}
     for w in ctx.fr_workers:
         st = w.fr
@@ -2436,6 +2878,8 @@ def account(ctx, res):
             res.see("fr_outcomes_at_the_event", "%s/%s:%s" % (kind, event, rec[4].split("@")[0]))
         else:
             res.count("fr_blocked_call/returned-when-the-link-ended")
+    if ctx.fr_sx_held:
+        res.count("fr_sx_held_dispatch", ctx.fr_sx_held)
     if ctx.fr is not None and ctx.triggered and sum(effective.values()):
         res.count("fr_cases")
         res.see("fr_delay_k", ctx.desc["k"])
@@ -2499,13 +2943,30 @@ def account(ctx, res):
             for e in "AB":
                 if good[e]:
                     res.count("entering_terminations/" + ctx.cause_at(e))
-    for th, es in _uncaught[ctx.uncaught_mark:]:
+    for kind, name in ctx.arg_errors:
+        res.count("arg_errors_accepted/%s/%s" % (kind, name))
+    svc = service_threads(ctx)
+    res.count("service_threads_watched_for_uncaught_exceptions", len(svc))
+    for th, es, tick, text in _uncaught[ctx.uncaught_mark:]:
         res.see("uncaught_in_thread", "%s %s" % ("service" if not isinstance(th, Worker) else "worker", es))
         res.count("uncaught_exceptions_in_threads")
+        if th in svc and th not in ctx.spinners:
+            end = "A" if any(th is sv or _created_by(ctx, th, sv) for sv in ctx.servers if sv._vf_end == "A") else "B"
+            term = ctx.term[end]
+            if term is None or tick < term:
+                res.count("uncaught_in_service_thread_before_termination")     # not about the end of the link
+                continue
+            cause = ctx.cause_at(end)
+            res.violations.append(("escape/service-thread/%s" % es,
+                                   "service thread %s (end %s) died of an exception that is not nfc.llcp.Error after "
+                                   "the link ended by %s: %s" % (th.name, end, cause, text[-400:]),
+                                   {"thread": th.name, "cause": cause}))
 
 
 def cleanup(ctx):
     """after the verdict: try to let leaked threads go (not part of any oracle)"""
+    for th in ctx.spinners:
+        _async_stop(th)
     for th in list(ctx.abandoned):
         info = getattr(th, "_vf_info", None)
         if info is not None:
@@ -2564,6 +3025,9 @@ def evaluate(desc, env, R):
     R.count("monitor_events", env.mon.events)
     R.count("yields_injected", env.mon.yields)
     R.max("thread_switches_per_case", env.mon.switches)
+    if not res.violations:                       # evidence for the bound of clause 6 (statements after the link ended)
+        R.max("post_term_lines/call", ctx.spin_max["call"])
+        R.max("post_term_lines/service-thread", ctx.spin_max["service-thread"])
     for k, v in res.counts.items():
         R.count(k, v)
     for k, vs in res.seen.items():
